@@ -93,7 +93,7 @@ RET = {'json': None, 'numpy': 'np.ndarray', 'frame': 'pd.DataFrame', 'series': '
 def make_task_module(spec):
     name = 'tcv_dyn_rt'
     m = types.ModuleType(name)
-    ret = RET[spec['kind']] or type(spec['value']).__name__
+    ret = RET[spec['kind']] or spec.get('declared') or type(spec['value']).__name__
     src = ('from typing import Generator\nimport numpy as np\nimport pandas as pd\nfrom pathlib import Path\n'
            'from taskchain import Task\nfrom taskchain.data import DirData, ListOfNumpyData\n'
            'from tcv.props.c06 import build as _build\n'
@@ -161,6 +161,10 @@ class RoundTrips(Suite):
                                 ('>U3', ['a', 'abc', 'é']), ('=i2', [1, 2, 3]))],
                 dict(kind='numpy', dtype='>i4', shape=[2, 2], data=[1, 2, 3, 4], slice=False, fortran=True, complex=False),
                 dict(kind='listnumpy', arrays=[[[1, 2], '>i4'], [[3.5], '>f8'], [[7], '<u2']]),
+                # values that the declared type admits without being of exactly that type (a bool is an int, ...)
+                dict(kind='json', value=True, declared='int'), dict(kind='json', value=False, declared='int'),
+                dict(kind='json', value=True, declared='bool'), dict(kind='json', value=3, declared='int'),
+                dict(kind='json', value=2.0, declared='float'), dict(kind='json', value='7', declared='str'),
                 # mappings whose string keys look like numbers (years, ids with leading zeros, a superscript digit)
                 dict(kind='json', value={'2020': 1, '0': {'007': [1], '7': 2}, '-1': 3, '1.5': 4, '²': 5}),
                 dict(kind='json', value=[{'10': 'a', '9': 'b'}, {'k': {'1': {'2': {}}}}]),
@@ -550,6 +554,7 @@ from taskchain import Task, Parameter
 from taskchain.data import GeneratedDataLazy
 
 RUNS = []
+NESTED = {"at": None, "call": None}      # while the rows of one configuration are being produced, another one is computed
 
 class Items(Task):
     class Meta:
@@ -558,6 +563,9 @@ class Items(Task):
     def run(self, n) -> Generator:
         RUNS.append("items")
         for i in range(n):
+            if NESTED["at"] == (n, i):
+                NESTED["at"] = None
+                NESTED["call"]()
             yield {"i": i, "s": "x" * (i % 3)}
 
 class Total(Task):              # two readers of the lazy value, the first stops early
@@ -577,7 +585,9 @@ class LazySequences(Suite):
     model = ''
 
     def gen(self, rng, tier):
-        return [dict(n=n) for n in (0, 1, 5, 120)]
+        # nested: while the sequence of one configuration is written, the same task of another configuration (another n) is
+        # computed and stored - by the body of the generator itself, as a stand-in for two chains working at overlapping times
+        return [dict(n=n) for n in (0, 1, 5, 120)] + [dict(n=5, nested=3, at=2), dict(n=120, nested=7, at=100), dict(n=4, nested=6, at=0)]
 
     def run_impl(self, case):
         from .c05 import in_child
@@ -592,9 +602,14 @@ class LazySequences(Suite):
             for c in (m.Items, m.Total):
                 c.__module__ = name
 
-            def chain():
+            def chain(n=None):
                 from taskchain import Config
-                return Config(Path('data'), name='cfg', data={'tasks': [m.Items, m.Total], 'n': case['n']}).chain()
+                return Config(Path('data'), name='cfg', data={'tasks': [m.Items, m.Total], 'n': case['n'] if n is None else n}).chain()
+            inner = {}
+            if case.get('nested') is not None:
+                def call():
+                    inner['rows'] = list(chain(case['nested'])['items'].value())
+                m.NESTED['at'], m.NESTED['call'] = (case['n'], case['at']), call
 
             def reads(v):
                 it = iter(v())
@@ -606,8 +621,12 @@ class LazySequences(Suite):
                 computing = reads(ch['items'].value)
                 total = ch['total'].value
                 later = reads(chain()['items'].value)
-                return dict(computing=computing, total=total, later=later, total_later=chain()['total'].value, runs=list(m.RUNS),
-                            child=in_child(lambda: dict(r=reads(chain()['items'].value))))
+                out = dict(computing=computing, total=total, later=later, total_later=chain()['total'].value, runs=list(m.RUNS),
+                           child=in_child(lambda: dict(r=reads(chain()['items'].value))))
+                if case.get('nested') is not None:
+                    out['inner'] = inner.get('rows')
+                    out['inner_later'] = list(chain(case['nested'])['items'].value())
+                return out
             return in_child(scenario)
         finally:
             os.chdir(old)
@@ -628,6 +647,14 @@ class LazySequences(Suite):
         t = dict(first=r['head'], all=want, again=len(want))
         if obs['total'] != t or obs['total_later'] != t:
             return f'{case}: the consumer saw {str(obs["total"])[:200]}; the sequence has {len(want)} items'
+        if case.get('nested') is not None:
+            wi = [{'i': i, 's': 'x' * (i % 3)} for i in range(case['nested'])]
+            if obs.get('inner') != wi or obs.get('inner_later') != wi:
+                return (f'{case}: the configuration computed in between has {len(wi)} rows; it yielded {len(obs.get("inner") or [])} '
+                        f'then, and a later chain loads {len(obs.get("inner_later") or [])}')
+            if obs['runs'] != ['items', 'items']:
+                return f'{case}: runs {obs["runs"]}'
+            return None
         if obs['runs'] != ['items']:
             return f'{case}: runs {obs["runs"]}'
         return None
